@@ -370,10 +370,6 @@ theorem inv_unswap {free g n ops0} {s : St} (h : Inv free g n ops0 s) {a b : Nat
     exact h.ok e (List.dropLast_subset _ he)
 
 /-! ### moves -/
-def Move.noPamBarrier : Move → Bool
-  | .pamBarrier _ => false
-  | _ => true
-
 def Move.isSabre : Move → Bool
   | .exec _ => true
   | .swap _ _ => true
@@ -463,10 +459,10 @@ theorem nodupL_iff (l : List Nat) : nodupL l = true ↔ l.Nodup := by
   | nil => simp [nodupL]
   | cons a l ih => simp [nodupL, ih]
 
-/-- every move except PAM's barrier branch preserves the invariant -/
-theorem inv_step {free : Nat → Bool} {g : G} {n : Nat} {ops0 : List Op} (hwf : g.WF) (hgn : g.n = n)
+/-- every move preserves the invariant -/
+theorem inv_step {free : Nat → Bool} {g : G} {n : Nat} {ops0 : List Op} (hwf : g.WF)
     (hw : OpsWF n ops0) {s s' : St} (h : Inv free g n ops0 s) (m : Move)
-    (hm : m.noPamBarrier = true) (hs : step free g s m = some s') : Inv free g n ops0 s' := by
+    (hs : step free g s m = some s') : Inv free g n ops0 s' := by
   cases m with
   | exec i =>
     simp only [step] at hs
@@ -502,7 +498,20 @@ theorem inv_step {free : Nat → Bool} {g : G} {n : Nat} {ops0 : List Op} (hwf :
         rw [← Option.some.inj hs]
         exact inv_unswap h h1 (by simpa using hl)
     · cases hs
-  | pamBarrier i => simp [Move.noPamBarrier] at hm
+  | pamBarrier i =>
+    simp only [step] at hs
+    cases hi : s.rem[i]? with
+    | none => simp [hi] at hs
+    | some o =>
+      simp only [hi] at hs
+      split at hs
+      · rename_i hc
+        simp only [Bool.and_eq_true] at hc
+        have hok : EmOK free g (.gate (relab (piAt s.pi) o)) := by
+          unfold EmOK; left; simpa [relab] using hc.2
+        have := inv_exec hw h hi hc.1 hok
+        rw [← Option.some.inj hs]; exact this
+      · cases hs
   | perm i p1 p2 s1 s2 =>
     simp only [step] at hs
     cases hi : s.rem[i]? with
@@ -562,9 +571,9 @@ theorem inv_step {free : Nat → Bool} {g : G} {n : Nat} {ops0 : List Op} (hwf :
             · cases hs
       · cases hs
 
-theorem inv_run {free : Nat → Bool} {g : G} {n : Nat} {ops0 : List Op} (hwf : g.WF) (hgn : g.n = n)
+theorem inv_run {free : Nat → Bool} {g : G} {n : Nat} {ops0 : List Op} (hwf : g.WF)
     (hw : OpsWF n ops0) (moves : List Move) {s s' : St} (h : Inv free g n ops0 s)
-    (hm : ∀ m ∈ moves, m.noPamBarrier = true) (hr : run free g s moves = some s') :
+    (hr : run free g s moves = some s') :
     Inv free g n ops0 s' := by
   induction moves generalizing s with
   | nil =>
@@ -577,8 +586,7 @@ theorem inv_run {free : Nat → Bool} {g : G} {n : Nat} {ops0 : List Op} (hwf : 
     | some s1 =>
       rw [h1] at hr
       simp only [Option.bind_some] at hr
-      exact ih (inv_step hwf hgn hw h m (hm m (by simp)) h1)
-        (fun m' hm' => hm m' (by simp [hm'])) hr
+      exact ih (inv_step hwf hw h m h1) hr
 
 /-- gate identity without the location -/
 def strip (o : Op) : Nat × List Int × List Nat := (o.gid, o.par, o.rad)
